@@ -46,6 +46,8 @@ pub struct State {
     /// number of runs that started / ended
     pub runs_started: u64,
     pub runs_ended: u64,
+    /// runs handed to the pool by tick (counted synchronously on the ticking thread)
+    pub spawned: u64,
     /// uninitialised entry dereference detected (index)
     pub fatal_uninit: Option<u64>,
     /// INFLIGHT_PUSH ordering: hold pushes of indices below `.0` until index `.0` was pushed
@@ -201,6 +203,9 @@ pub fn hook(s: u32, arg: u64) {
             if s == site::TICK_LOCKED {
                 c.st.lock().no_park = false;
             }
+            if s == site::TICK_AFTER_SPAWN {
+                c.st.lock().spawned += 1;
+            }
             let plan = TICK_PLAN.with(|p| p.borrow_mut().take());
             if let Some(mut f) = plan {
                 f(s);
@@ -327,15 +332,16 @@ pub fn advance_run_to(s: u32) -> Waited {
     let target = {
         let mut st = c.st.lock();
         st.run_hold = s;
-        st.runs_started.max(st.runs_ended + 1)
+        st.spawned.max(st.runs_ended + 1)
     };
     c.cv.notify_all();
     wait_run_parked_or_ended(s, target)
 }
 
+/// (runs handed to the pool, runs ended)
 pub fn runs() -> (u64, u64) {
     let st = ctl().st.lock();
-    (st.runs_started, st.runs_ended)
+    (st.spawned.max(st.runs_started), st.runs_ended)
 }
 
 /// wait until every started run has ended (plus a short settle for the lock guard to drop)
@@ -348,7 +354,7 @@ pub fn wait_runs_idle() -> Waited {
             if st.fatal_uninit.is_some() {
                 return Waited::Fatal;
             }
-            if st.runs_ended >= st.runs_started {
+            if st.runs_ended >= st.runs_started.max(st.spawned) {
                 break;
             }
             if st.score_parked || st.run_parked != 0 {
